@@ -114,14 +114,14 @@ PROPS = {
         "technique": "interprocedural field read-set analysis over MIR (necessity rule: a result that depends on a component must read it)",
     },
     "C09": {
-        "clauses": [r9.check_iterators, r9.check_sign_readers],
+        "clauses": [r9.check_iterators, r9.check_sign_readers, r5check.check_constructors],
         "not_decided": "byte regrouping arithmetic, two's-complement byte loops, iterator value sequences beyond the read-set condition; importer normalisation (planned R1)",
         "level_text": "Decides: every U32Digits cursor method (next, next_back, len, last, count, size_hint) consults all three cursor fields, directly or through the cursor methods "
         "it calls (the rule that exposed the U32Digits::last defect); U64Digits methods delegate to the slice iterator; signed-byte exporters read the sign.",
         "technique": "interprocedural field read-set analysis over MIR (necessity rule)",
     },
     "C10": {
-        "clauses": [_c10_forwarders, _c10_signed, _c10_folds, r5check.check_arithmetic(None, 85)],
+        "clauses": [_c10_forwarders, _c10_signed, _c10_folds, r5check.check_arithmetic(None, 85), r5check.check_powers, r5check.check_upow],
         "not_decided": "digit splitting/padding inside the unsigned scalar leaves and the digit arithmetic of the leaf implementations",
         "level_text": "Every one of the ~1286 operator impl bodies is classified from its MIR: ~970 are proven pure forwarders (operands reach the "
         "callee in order - swapped only for commutative operators -, scalar promotions are value-preserving casts, the callee's result is the result, "
@@ -139,7 +139,7 @@ PROPS = {
         "technique": T_R3 + "; cross-configuration MIR diff with forward taint (cfg-taint)",
     },
     "C12": {
-        "clauses": [fam("Pow"), r5check.check_powers],
+        "clauses": [fam("Pow"), r5check.check_powers, r5check.check_upow],
         "not_decided": "square-and-multiply arithmetic; 0^0 decision order of the BigUint exponent form",
         "level_text": "Decides: all Pow operator forms (by value / by reference, every exponent type) are verified forwarders or reviewed implementations.",
         "technique": T_R2,
@@ -202,7 +202,7 @@ PROPS = {
         "technique": "MIR switch-table and constant extraction, argument provenance; cross-configuration MIR fingerprints",
     },
     "C19": {
-        "clauses": [r5check.check_helpers, r5check.check_arithmetic({"Mul"}, 15)],
+        "clauses": [r5check.check_helpers, r5check.check_constructors, r5check.check_arithmetic({"Mul"}, 15)],
         "not_decided": "is_zero <=> empty digit vector relies on the canonical-form invariant (planned R1); from_biguint's own body (calls into digit-level code) is used as a model, its table is checked separately",
         "level_text": "Decides essentially the whole property, because it is finite: an abstract interpreter enumerates every sign case (and order / zero-ness case on demand) of "
         "Neg for Sign, Mul<Sign>, Neg, Not, abs, signum, is_positive, is_negative, abs_sub, sign, magnitude, into_parts, zero/one/default, set_zero, Ord, PartialEq, "
@@ -219,7 +219,7 @@ PROPS = {
         "technique": "recurrence extraction: dominance regions of the regime tests in MIR + call-graph reachability for recursive fan-out, evaluated symbolically in Python",
     },
     "C18": {
-        "clauses": [guards("range", "bound"), r10.check_rejection_loop, r10.check_gen_bigint, r10.check_delegations],
+        "clauses": [guards("range", "bound"), r10.check_rejection_loop, r10.check_gen_bigint, r10.check_delegations, r5check.check_ranges],
         "not_decided": "gen_biguint(n) < 2^n and the platform-independent word order (shift arithmetic on the top word), the distribution itself",
         "level_text": "Decides: zero bound / empty / inverted range assertions are mandatory and compare the right operands with the right strictness; gen_biguint_below is a "
         "first-candidate rejection loop (bits = bound.bits(), strict <, candidate returned unchanged), hence every value of the range has equally many "
